@@ -276,6 +276,46 @@ def run_tx_policy(policy, ka):
     return vio, len(seen), outcomes
 
 
+def run_unit_policy(tr, ka, unit, answers_from):
+    """The communication address in the requests is the configured one, whatever address the answers come from (another
+    unit answering, AA55-protocol answers 'AA55 7F C0 ..' between Modbus requests on an ES).  Every command is built by the
+    protocol object's factory right before it is sent."""
+    world.reset()
+
+    def plan(k, req, now):
+        try:
+            rq = wire.parse_request(req) if tr == 'udp' else wire.parse_tcp_request(req)
+        except wire.BadRequest:
+            return []
+        if rq.get('framing') == 'aa55':
+            return [(D0, ('data', wire.aa55_resp('0186', bytes(6))))]
+        fn = rq['fn']
+        pdu = bytes([3, 2 * rq['count']]) + bytes(2 * rq['count']) if fn == 3 else \
+            bytes([6]) + struct.pack('>HH', rq['reg'], rq['value']) if fn == 6 else bytes([16]) + struct.pack('>HH', rq['reg'], rq['count'])
+        src = rq['unit'] if answers_from == 'same' else answers_from
+        return [(D0, ('data', wire.mbap(req[:2], src, pdu) if tr == 'tcp' else wire.rtu_frame(src, pdu)))]
+    peer = PlanPeer(plan)
+    loop = KLoop(peer)
+    p = make_protocol(tr, 1, 0, ka, unit=unit)
+    builders = [lambda: gp.Aa55ProtocolCommand('010600', '0186'), lambda: p.read_command(0x891C, 2), lambda: p.write_command(47510, 3),
+                lambda: p.write_multi_command(47515, bytes(4)), lambda: gp.Aa55ProtocolCommand('010600', '0186'), lambda: p.read_command(100, 1),
+                lambda: p.write_command(100, 1), lambda: p.read_command(0x891C, 2)]
+    if tr == 'tcp':
+        builders = [b for i, b in enumerate(builders) if i not in (0, 4)]
+    for b in builders:
+        loop.run(_exec(b(), p))
+    vio = []
+    for _, _, d, _ in peer.sent:
+        if d[:2] == b'\xaa\x55':
+            continue
+        u = d[6] if tr == 'tcp' else d[0]
+        if u != unit:
+            vio.append(('unit-address-is-the-configured-one', f'request {d.hex()[:24]}.. carries address {u:#x}, configured {unit:#x} '
+                                                               f'({tr}, answers come from {answers_from if answers_from == "same" else hex(answers_from)})'))
+            break
+    return vio, len(peer.sent)
+
+
 def run_overlap_mixed(transport, ka, steps, calls):
     """Different public calls on ONE object at the same time: what reaches the inverter is, request for request, what the
     same calls transmit when each is made alone (as a multiset: the order between callers is free) - no caller's request is
@@ -435,6 +475,14 @@ def run(tier, seed, rep):
             for clause, cause in vio:
                 rep.add(clause, clause.split('/')[0], dict(part='overlap', callers=nc, steps=steps), dict(cause=cause))
     import itertools
+    for tr in ('udp', 'tcp'):
+        for ka in (False, True):
+            for unit in (0xF7, 0x7F, 0x11):
+                for src in ('same', 0x7F, 0xF7, 0x01, 0xC0):
+                    vio, k = run_unit_policy(tr, ka, unit, src)
+                    novl += k
+                    for clause, cause in vio:
+                        rep.add(f'{clause}/{tr}/ka={int(ka)}', clause, dict(part='unit-policy', transport=tr, ka=ka, unit=unit, src=src), dict(cause=cause))
     for policy in TX_POLICIES:
         for ka in (False, True):
             vio, k, _ = run_tx_policy(policy, ka)
@@ -511,6 +559,9 @@ def replay(r):
         vio = {}
         one(vio, r['ctor'], tuple(a))
         return dict(violations=[(k, v[0]['detail']) for k, v in vio.items()])
+    if r['part'] == 'unit-policy':
+        vio, k = run_unit_policy(r['transport'], r['ka'], r['unit'], r['src'])
+        return dict(transmissions=k, violations=vio)
     if r['part'] == 'tx-policy':
         vio, k, oc = run_tx_policy(r['policy'], r['ka'])
         return dict(transmissions=k, outcomes=oc, violations=vio)
